@@ -87,6 +87,19 @@ func (p *profile) ParseRef(rawUrl, ref string) (*url.Url, error) {
 }
 
 func (p *profile) Canonicalize(u *url.Url) (*url.Url, error) {
+	// remove what the profile removes first: the host setter refuses to change a host to the empty host while the URL still has
+	// credentials or a port, so decoding the host before they are removed gave a result that a second canonicalization changed again
+	if p.removePort {
+		u.SetPort("")
+	}
+	if p.removeUserInfo {
+		u.SetUsername("")
+		u.SetPassword("")
+	}
+	if p.removeFragment {
+		u.SetHash("")
+	}
+
 	if p.repeatedPercentDecoding {
 		if u.Hostname() != "" {
 			u.SetHostname(decodeEncode(u.Hostname(), url.HostPercentEncodeSet))
@@ -106,17 +119,6 @@ func (p *profile) Canonicalize(u *url.Url) (*url.Url, error) {
 			// an empty fragment ("http://h/#") is the same URL as no fragment
 			u.SetHash("")
 		}
-	}
-
-	if p.removePort {
-		u.SetPort("")
-	}
-	if p.removeUserInfo {
-		u.SetUsername("")
-		u.SetPassword("")
-	}
-	if p.removeFragment {
-		u.SetHash("")
 	}
 
 	switch p.sortQuery {
